@@ -76,6 +76,10 @@ class FlattenBase(Contract):
                    z3.And(dss, node.get('kind') != K['OrderedDict']), n.get('line'))
         st.ghost['sorted'] = True
 
+    def on_pydict_keys(self, eng, st, d, n):
+        node = st.get('node') if st.scope.lookup('node') is not None else None
+        return node.get('kind') != K['OrderedDict'] if node is not None else z3.BoolVal(False)
+
     def idx_loop(self, var='i'):
         def inv(cx):
             node = cx.var('node')
@@ -158,9 +162,11 @@ class FlattenBase(Contract):
             st.heap[ptr.oid] = v1
             st.facts += [v1.len >= v0.len, vec_prefix_same(v1, v0, v0.len), v1.len - v0.len == l1.len - l0.len]
         hook = getattr(eng.cur_contract, 'on_flatten_call', None)
+        found = fresh('found_custom', Bool)
         if hook:
             hook(eng, st, dict(eng.template_env))
-        return [(st, fresh('found_custom', Bool))]
+            st.ghost['flatten_found_custom'] = found
+        return [(st, found)]
 
 
 @contract
@@ -214,8 +220,8 @@ class FlattenDispatch(OmegaMixin, Contract):
         if targs:
             out += [('instance-NoneIsLeaf-is-none_is_leaf', targs['NoneIsLeaf'] == cx.old('none_is_leaf')),
                     ('instance-DictShouldBeSorted-is-not-the-mode-predicate', targs['DictShouldBeSorted'] == z3.Not(ordered)),
-                    ('namespace-recorded-iff-custom-found-or-mode-set-in-this-namespace',
-                     z3.Implies(om.contains((ns,)), ret))]
+                    ('namespace-recorded-iff-custom-found-or-mode-set-in-this-very-namespace',
+                     ret == z3.Or(cx.st.ghost['flatten_found_custom'], om.contains((ns,))))]
         return out
 
     def frame(self, cx, ret):
@@ -390,37 +396,52 @@ class NextImpl(Contract):
 
 @contract
 class FlattenUpTo(Contract):
-    """PyTreeSpec::FlattenUpTo (C05, C07, C16): reverse walk over the treespec with an agenda of subtrees."""
+    """PyTreeSpec::FlattenUpTo (C05, C07, C10, C16): reverse walk over the treespec with an agenda of subtrees.
+
+    Ghost: pending(p) = number of subtrees still to be matched after p nodes have been visited from the right,
+    pending(0) = 1, pending(p+1) = pending(p) - 1 + arity(node n-1-p).  The agenda holds exactly pending(p) objects: every
+    non-leaf node pushes exactly its own arity children of the matched object (alignment), never more or fewer."""
     name = 'optree::PyTreeSpec::FlattenUpTo'
-    props = ('C05', 'C07', 'C16')
+    props = ('C05', 'C07', 'C10', 'C16')
+    pending = z3.Function('pending_subtrees', Int, Int)
 
     def __init__(self):
         ar = lambda cx: cx.eng.to_nodeval(cx.st, cx.var('node')).get('arity')
         inner = lambda: Loop(lambda cx: [('i-range', z3.And(0 <= cx.var('i'), cx.var('i') <= ar(cx)))]
-                             + self.main_inv(cx, inner=True), decreases=lambda cx: ar(cx) - cx.var('i'))
-        keyloop = Loop(lambda cx: [('key-idx-nonneg', 0 <= cx.var('key__idx'))] + self.main_inv(cx, inner=True), index='key__idx')
-        childloop = Loop(lambda cx: [('child-idx-nonneg', 0 <= cx.var('child__idx'))] + self.main_inv(cx, inner=True),
+                             + self.main_inv(cx, inner=cx.var('i')), decreases=lambda cx: ar(cx) - cx.var('i'))
+        keyloop = Loop(lambda cx: [('key-idx-range', z3.And(0 <= cx.var('key__idx'),
+                                                            cx.var('key__idx') <= M.py_len(cx.var('expected_keys').ref)))]
+                       + self.main_inv(cx, inner=cx.var('key__idx')), index='key__idx')
+        childloop = Loop(lambda cx: [('child-idx-nonneg', 0 <= cx.var('child__idx')),
+                                     ('arity-counts-the-children-pushed', cx.var('arity') == cx.var('child__idx'))]
+                         + self.main_inv(cx, inner=cx.var('child__idx')),
                          index='child__idx', seq_len=lambda eng, st, rng: M.iter_len(rng.ref))
-        self.loops = {0: Loop(self.main_inv, hints=self.hints), 1: inner(), 2: inner(), 3: keyloop, 4: inner(), 5: inner(),
-                      6: inner(), 7: childloop}
+        self.loops = {0: Loop(self.main_inv, hints=self.hints, body_post=self.matched), 1: inner(), 2: inner(), 3: keyloop,
+                      4: inner(), 5: inner(), 6: inner(), 7: childloop}
 
     def setup(self, eng, st, fn):
         from .unflatten import pl_bounded_lemma
         cx = super().setup(eng, st, fn)
         st.facts += pl_bounded_lemma(eng, st, self.views['this'], 'this')
+        st.facts.append(self.pending(z3.IntVal(0)) == 1)
         return cx
 
-    def main_inv(self, cx, inner=False):
+    def main_inv(self, cx, inner=None):
         v = self.views['this']
         n = v.v.len
         it = cx.var('it')
-        pos = it.pos - (1 if inner else 0)      # inside a node case the iterator has already been advanced
+        pos = it.pos - (1 if inner is not None else 0)      # inside a node case the iterator has already been advanced
         leaf = cx.var('leaf')
         agenda = cx.obj(cx.var('agenda'))
         out = [('iterator-range', z3.And(0 <= it.pos, it.pos <= n)),
                ('agenda-len-nonneg', agenda.len >= 0),
                ('next-leaf-slot', leaf == v.PL(n - it.pos) - 1),
                ('num_leaves-is-total', cx.var('num_leaves') == v.PL(n))]
+        if inner is None:
+            out.append(('agenda-holds-exactly-the-pending-subtrees', agenda.len == self.pending(it.pos)))
+        else:
+            out.append(('agenda-holds-the-pending-subtrees-plus-the-children-pushed-so-far',
+                        agenda.len == self.pending(pos) - 1 + inner))
         return out
 
     def hints(self, cx):
@@ -430,7 +451,31 @@ class FlattenUpTo(Contract):
         k = n - 1 - p
         return [('PL-step', v.inst('PL-step', k), 'instance'),
                 ('PL-range', v.inst('PL-range', k), 'instance'),
+                # definition of the ghost function at the current position (conservative: pending is otherwise unconstrained)
+                ('pending-step', z3.Implies(z3.And(0 <= p, p < n), self.pending(p + 1) == self.pending(p) - 1 + v.A(k)), 'instance'),
                 ('total-leaves', v.NL(n - 1) == v.PL(n))]
+
+    def matched(self, cx):
+        """After a completed iteration: the object taken from the agenda was matched against the node by the test the
+        property demands for its kind (exact type / same class / same registration, equal metadata)."""
+        v = self.views['this']
+        n = v.v.len
+        pre = cx.pre
+        ag = pre.heap[pre.get('agenda').oid]
+        obj = z3.Select(ag.arr, ag.len - 1)
+        k = n - 1 - pre.get('it').pos
+        kind, D, C = v.K(k), v.D(k), v.C(k)
+        ex = lambda nm: z3.Function('is_exact_' + nm, Ref, Bool)(obj)
+        return [('tuple-node-matches-an-exact-tuple', z3.Implies(kind == K['Tuple'], ex('Tuple'))),
+                ('list-node-matches-an-exact-list', z3.Implies(kind == K['List'], ex('List'))),
+                ('dict-node-matches-a-standard-dict', z3.Implies(z3.Or(kind == K['Dict'], kind == K['OrderedDict'],
+                                                                        kind == K['DefaultDict']), ex('StandardDict'))),
+                ('deque-node-matches-an-exact-deque', z3.Implies(kind == K['Deque'], ex('Deque'))),
+                ('namedtuple-node-matches-the-same-class',
+                 z3.Implies(kind == K['NamedTuple'], z3.And(ex('NamedTuple'), M.py_eq(M.py_type(obj), D)))),
+                ('structseq-node-matches-the-same-class',
+                 z3.Implies(kind == K['StructSequence'], z3.And(ex('StructSequence'), M.py_eq(M.py_type(obj), D)))),
+                ('none-node-matches-None', z3.Implies(kind == K['None'], obj == PYNONE))]
 
     def raises(self, cx):
         return {'pybind11::value_error': None, 'std::runtime_error': None, 'pybind11::error_already_set': None,
